@@ -18,7 +18,7 @@ HERE = os.path.dirname(os.path.abspath(__file__))
 
 def overlay(tier, seed=0):
     return [{"src": "n6_cell_helpers.rs", "dest": "src/verif_n6_cell_helpers.rs", "mod_in": "src/lib.rs", "mod_name": "verif_n6",
-             "params": {"SEED": 0x243F6A8885A308D3 ^ (seed * 0x9E3779B97F4A7C15 & 0xFFFFFFFFFFFFFFFF)}}]
+             "params": {"SEED": 0x243F6A8885A308D3 ^ (seed * 0x9E3779B97F4A7C15 & 0xFFFFFFFFFFFFFFFF), "NRAND": 150 if tier == "quick" else 700}}]
 
 
 def obligations(tier, seed):
